@@ -6,6 +6,7 @@ package main
 // unprocessable requests answered with an error) are evaluated in Coq from Rpc/WfSpec.v.
 
 import (
+	"encoding/hex"
 	"encoding/json"
 	"fmt"
 	"strings"
@@ -176,8 +177,12 @@ func txnInfoFor(raw json.RawMessage, keys []proxykit.Key) txnInfo {
 	for i, k := range keys {
 		if k.Address == [20]byte(from) {
 			which = 1
-			if i == nonceFailKey {
-				which = 2
+			if nonceFails(i) && !nonce {
+				which = 2 // the nonce lookup fails before anything is signed
+			} else if txn.To != nil && rawRefusal(hex.EncodeToString(txn.To[:])+"#") != 0 {
+				which = 3 // signed, then the backend refuses the raw transaction
+			} else if nonceFails(i) {
+				which = 2 // (nonce given: the lookup is not made; 2 and 1 behave alike in the model then)
 			}
 		}
 	}
